@@ -271,3 +271,26 @@ Definition final_at (l : loc) (init : mem) (ts : list thread) (sched : list nat)
 (* first schedule of two threads (k steps each) after which both are done and l differs from `want` *)
 Definition find_bad (l : loc) (init : mem) (ts : list thread) (k : nat) (want : Z) : option (list nat) :=
   find (fun sc => let r := final_at l init ts sc in snd r && negb (fst r =? want)) (interleavings k k (k + k)).
+
+(* ---- sequential execution (correspondence with the implementation: the same calls run one after the other) ---- *)
+Fixpoint seq_sched (n k : nat) : list nat :=
+  match n with O => [] | S n' => seq_sched n' k ++ repeat n' k end.
+
+Definition run_calls (init : mem) (calls : list (list section * list Z)) (sched : list nat) : config :=
+  run (init, map (fun c => start (fst c) (snd c)) calls) sched.
+
+(* all calls finish within 100 steps each when run alone and the listed locations hold the expected values *)
+Definition seq_case_ok (init : mem) (cs : list (list section * list Z) * list (loc * Z)) : bool :=
+  let c := run_calls init (fst cs) (seq_sched (length (fst cs)) 100) in
+  all_done (snd c) && forallb (fun lv => fst c (fst lv) =? snd lv) (snd cs).
+
+Fixpoint bad_cases {A} (f : A -> bool) (i : N) (l : list A) : list N :=
+  match l with
+  | [] => []
+  | x :: r => if f x then bad_cases f (i + 1)%N r else i :: bad_cases f (i + 1)%N r
+  end.
+
+(* search for a two-goroutine schedule that loses an update on location l of the given program:
+   both run `secs`, with arguments a0 / a1; `want` is the true final value *)
+Definition find_bad2 (l : loc) (init : mem) (secs : list section) (a0 a1 : list Z) (k : nat) (want : Z) : option (list nat) :=
+  find_bad l init [start secs a0; start secs a1] k want.
